@@ -589,11 +589,26 @@ pub fn witness_max_response(
 ) -> Option<(u64, Scenario)> {
     let n = ts.tasks.len();
     let l = prep.l_obs?;
-    // every curve must be attained by its dense sequence over the whole busy window (+ blocking)
+    let horizon = (2 * l + 40).min(crate::unisched::MAX_REL_HORIZON);
+    if l + 64 > horizon {
+        return None; // the busy window does not fit the simulated horizon: cannot decide
+    }
+    // The maximal-rate release pattern comes from the process each model *documents* (period;
+    // min inter-arrival + release jitter; the recorded delta-min prefix), not from the library's
+    // curve: a curve that over-approximates its own process (e.g. one extra job at a window
+    // boundary, a not-tightest extrapolation) then shows as a bound no schedule attains.
+    let mut dense: Vec<Vec<u64>> = Vec::with_capacity(n);
     for t in 0..n {
-        if !prep.adm[t].dense_attains(&prep.dense[t], l + 12) {
+        let dd = doc_dense(&ts.tasks[t].arr, horizon, crate::unisched::KMAX)?;
+        if dd.len() >= crate::unisched::KMAX && dd.last().copied().unwrap_or(0) < l + 12 {
+            return None; // job cap reached inside the busy window: cannot decide
+        }
+        // the documented pattern must be admissible for the library's curve (otherwise the
+        // library undercounts its own process: C10's business, no claim here)
+        if prep.adm[t].validate(&dd).is_err() {
             return None;
         }
+        dense.push(dd);
     }
     let mut jobs: Vec<JobSpec> = Vec::new();
     let mut shift = 0u64;
@@ -606,7 +621,7 @@ pub fn witness_max_response(
     if variant == Variant::FpNp {
         // the lower-priority task with the largest WCET starts one tick earlier
         let blocker = (0..n)
-            .filter(|j| ts.tasks[*j].prio < ts.tasks[i].prio && !prep.dense[*j].is_empty())
+            .filter(|j| ts.tasks[*j].prio < ts.tasks[i].prio && !dense[*j].is_empty())
             .max_by_key(|j| (ts.tasks[*j].wcet, *j));
         if let Some(b) = blocker {
             // only a blocker that actually blocks (WCET ≥ 2) needs the shift
@@ -620,9 +635,8 @@ pub fn witness_max_response(
     }
     // the busy window may be longer than the synchronous one because of blocking; release
     // densely well beyond it
-    let horizon = (2 * l + 40).min(crate::unisched::MAX_REL_HORIZON);
     for t in include {
-        for r in prep.dense[t].iter() {
+        for r in dense[t].iter() {
             if *r > horizon {
                 break;
             }
@@ -648,6 +662,51 @@ pub fn witness_max_response(
     let none: Vec<Option<u64>> = vec![None; n];
     let res = run_scenario(&sc, &none, false);
     Some((res.max_resp[i], sc))
+}
+
+/// The maximal-rate release pattern of the process the model documents (only for the models
+/// C18 speaks about: periodic, sporadic with release jitter, auto-extrapolating delta-min curves).
+pub fn doc_dense(arr: &crate::desc::ArrDesc, horizon: u64, max_jobs: usize) -> Option<Vec<u64>> {
+    use crate::desc::ArrDesc;
+    let mut out = Vec::new();
+    match arr {
+        ArrDesc::Periodic(t) => {
+            let mut x = 0u64;
+            while x <= horizon && out.len() < max_jobs {
+                out.push(x);
+                x += *t;
+            }
+        }
+        ArrDesc::Sporadic(t, j) => {
+            // arrivals at k*T, the first ones released as late as the jitter allows so that they
+            // bunch up with the punctual ones: release_k = max(k*T, J), shifted to start at 0
+            let mut k = 0u64;
+            loop {
+                let r = (k * *t).saturating_sub(*j);
+                if r > horizon || out.len() >= max_jobs {
+                    break;
+                }
+                out.push(r);
+                k += 1;
+            }
+        }
+        ArrDesc::Extrap(prefix) => {
+            // densest sequence that respects the recorded delta-min prefix (and nothing else)
+            while out.len() < max_jobs {
+                let n = out.len();
+                let mut lb = 0u64;
+                for k in 1..=prefix.len().min(n) {
+                    lb = lb.max(out[n - k] + prefix[k - 1]);
+                }
+                if lb > horizon {
+                    break;
+                }
+                out.push(lb);
+            }
+        }
+        _ => return None,
+    }
+    Some(out)
 }
 
 pub fn exact_swarm(rng: &mut Rng) -> TaskSetSwarm {
@@ -1101,6 +1160,27 @@ pub fn run_c18(opt: &Options) -> i32 {
     run_parallel_then(inputs, opt.jobs, 60, |k, acc, note| {
         c18_item(root, k, acc, note, &fps)
     }, &fin)
+}
+
+pub fn debug_tight(text: &str) {
+    let (ts, variant, _ent) = parse_tight(text).unwrap();
+    let prep = prepare(&ts).unwrap();
+    println!("l_obs = {:?}", prep.l_obs);
+    for (i, t) in ts.tasks.iter().enumerate() {
+        let dd = doc_dense(&t.arr, 200, 60);
+        println!("task {} doc_dense = {:?}", i, dd);
+        println!("task {} lib_dense = {:?}", i, &prep.dense[i][..prep.dense[i].len().min(30)]);
+        println!("task {} eta[0..60] = {:?}", i, &prep.adm[i].eta[..60.min(prep.adm[i].eta.len())]);
+    }
+    println!("bounds = {:?}", analyse_all(&ts, variant, 0));
+    for i in 0..ts.tasks.len() {
+        if let Some((w, sc)) = witness_max_response(&ts, &prep, variant, i) {
+            println!("victim {} witness max {} jobs {}", i, w, sc.jobs.len());
+            let none: Vec<Option<u64>> = vec![None; ts.tasks.len()];
+            let res = run_scenario(&sc, &none, false);
+            println!("   max_resp {:?} worst {:?}", res.max_resp, res.worst);
+        }
+    }
 }
 
 pub fn replay_tight(path: &str, text: &str) -> i32 {
